@@ -15,6 +15,7 @@ import (
 	"sort"
 	"strings"
 	"sync"
+	"sync/atomic"
 	"time"
 
 	"github.com/caddyserver/caddy/v2"
@@ -117,6 +118,8 @@ type connPlan struct {
 	server *vnet.End
 	rec    *hmods.ConnRec
 	tlsOK  chan error
+	// sentAt: when the client had written everything it sends without waiting (0: it never got that far)
+	sentAt atomic.Int64
 }
 
 type accepted struct {
@@ -171,6 +174,7 @@ func oneRun(c *fw.Ctx, cert *tlsutil.Cert, index, nConns int) {
 	base := vnet.NewListener(fmt.Sprintf("c13-%d-%d", c.Shard, index))
 	ln := lw.WrapListener(base)
 
+	rAcc := fw.Rand(c.Seed, "c13acc", index) // the Accept consumer's own generator (it runs on its own goroutine)
 	pace := []string{"immediate", "slow", "stops"}[r.Intn(3)]
 	closeMode := []string{"after-all", "midway", "early"}[r.Intn(3)]
 	stopAfter := 1 + r.Intn(nConns/2+1)
@@ -283,7 +287,7 @@ func oneRun(c *fw.Ctx, cert *tlsutil.Cert, index, nConns int) {
 				_ = cn.Close()
 			}()
 			if pace == "slow" {
-				time.Sleep(time.Duration(200+r.Intn(2000)) * time.Microsecond)
+				time.Sleep(time.Duration(200+rAcc.Intn(2000)) * time.Microsecond)
 			}
 		}
 	}()
@@ -319,11 +323,13 @@ func oneRun(c *fw.Ctx, cert *tlsutil.Cert, index, nConns int) {
 					return
 				}
 				_, _ = tc.Write(p.Stream)
+				p.sentAt.Store(int64(vnet.Now()))
 				_ = tc.CloseWrite()
 				return
 			}
 			if p.Class == 'M' {
 				_, _ = p.client.Write(p.Wire[:9])
+				p.sentAt.Store(int64(vnet.Now()))
 				time.Sleep(time.Duration(timeoutMs)*time.Millisecond + 250*time.Millisecond)
 				_, _ = p.client.Write(p.Wire[9:])
 				_ = p.client.CloseWrite()
@@ -333,12 +339,14 @@ func oneRun(c *fw.Ctx, cert *tlsutil.Cert, index, nConns int) {
 				_, _ = p.client.Write(p.Wire[:9])
 				time.Sleep(3 * time.Millisecond)
 				_, _ = p.client.Write(p.Wire[9:22])
+				p.sentAt.Store(int64(vnet.Now()))
 				time.Sleep(time.Duration(timeoutMs)*time.Millisecond + 250*time.Millisecond)
 				_, _ = p.client.Write(p.Wire[22:])
 				_ = p.client.CloseWrite()
 				return
 			}
 			_ = drive.WriteSegments(p.client, p.Wire, p.Segs, 3, 30*time.Microsecond)
+			p.sentAt.Store(int64(vnet.Now()))
 			_ = p.client.CloseWrite()
 		}(p)
 		if r.Intn(4) == 0 {
@@ -456,10 +464,18 @@ func oneRun(c *fw.Ctx, cert *tlsutil.Cert, index, nConns int) {
 			// not delivered: legitimate only if the listener was closed while it was pending (or the client
 			// failed before handing over); then it must have been closed
 			timedOut := false
+			var timedOutAt time.Duration
 			for _, l := range p.server.Log() {
-				if l.Op == "read" && strings.Contains(l.Err, "timeout") {
-					timedOut = true
+				if l.Op == "read" && strings.Contains(l.Err, "timeout") && !timedOut {
+					timedOut, timedOutAt = true, l.T1
 				}
+			}
+			if sent := time.Duration(p.sentAt.Load()); timedOut && (sent == 0 || sent > timedOutAt-2*time.Millisecond) {
+				// layer4 gave up at its matching deadline (150-350 ms) before this client had even written what it sends
+				// straight away (hundreds of small segments on a busy machine): slower than the timeout allows, which is
+				// not the wrapper's doing
+				c.Inconclusive("client slower than the matching timeout")
+				continue
 			}
 			if timedOut && canary.MaxOversleep() > time.Duration(timeoutMs)*time.Millisecond/8 {
 				// layer4 gave up on this connection at its matching deadline (150-350 ms) and the scheduler canary
